@@ -3306,6 +3306,15 @@ Box<ITV>
     PPL_DIRTY_TEMP_COEFFICIENT(min_denom);
     bool min_included;
     ITV& seq_v = seq[var.id()];
+    if (denominator < 0) {
+      // lb/d <= var' <= ub/d with d < 0: the lower bound of var' is
+      // max(lb)/d and the upper bound is min(ub)/d.  Reduce to the
+      // positive case: (-lb)/(-d) <= var' <= (-ub)/(-d).
+      PPL_DIRTY_TEMP_COEFFICIENT(pos_denominator);
+      neg_assign(pos_denominator, denominator);
+      bounded_affine_image(var, -lb_expr, -ub_expr, pos_denominator);
+      return;
+    }
     if (maximize(ub_expr, max_numer, max_denom, max_included)) {
       if (minimize(lb_expr, min_numer, min_denom, min_included)) {
         // The `ub_expr' has a maximum value and the `lb_expr'
